@@ -315,7 +315,10 @@ def cases(tier, seed):
       except Exception as e:     # an oracle-side failure must not pass silently
         bad = ('fit-completes', 'oracle raised %s: %s' % (type(e).__name__, e))
       if bad:
-        return dict(tag=bad[0], observed=bad[1], input=dict(cfg, signature=signature(cfg, bad[0])))
+        return dict(tag=bad[0], observed=bad[1],
+                    input=dict(cfg, signature=signature(cfg, bad[0]),
+                               rerun='standins.c15.check_case(standins.common.repo(), <this dict>): data from make_triplets / make_labelled '
+                                     'with RandomState(data_seed); basis=array: rng.randn(n_basis, d) drawn after the data'))
       return None
     yield describe(cfg), tuple(tags), thunk
 
